@@ -218,4 +218,124 @@ class GlueH(Harness):
         return {"violated": violated, "detail": detail}
 
 
-HARNESSES = [GlueH()]
+class GlueReducedH(Harness):
+    """to_ge_polyhedron(active, reduced=True): the reduction itself happens inside the compiled extension and is NOT under
+    contract (A-rs1 covers reduced=False; natively the reduced polyhedron was seen to lose solutions, see DESIGN) -- what is
+    under contract is the Python glue's TRANSPORT of whatever the extension answers: column 0 is its right-hand side, the
+    other columns are its matrix, and each column carries the puan variable (id and bounds) of the statement index the
+    extension names there, behind the support variable."""
+    name = "AtLeast.to_ge_polyhedron(reduced transport)"
+    function = "AtLeast.to_ge_polyhedron"
+    module = "puan.logic.plog"
+    numpy_mode = "sym"
+    rs_model = True
+
+    def cases(self):
+        out = []
+        for shape in ("flat", "nested"):
+            comps = sorted(SHAPES[shape])
+            for sg in itertools.product((1, -1), repeat=len(comps)):
+                for active in (True, False):
+                    out.append({"shape": shape, "signs": dict(zip(comps, sg)), "active": active})
+        return out
+
+    def setup(self, c, case):
+        top, objs, leaves, lo, hi, vals = build(c, c.repo, case["shape"], case["signs"])
+        return {"top": top, "objs": objs, "leaves": leaves, "lo": lo, "hi": hi, "vals": vals, "tree": SHAPES[case["shape"]]}
+
+    def run(self, c, st):
+        c.nd_epoch = 1
+        c.repo.load("puan.logic.plog").pr.TheoryPy.last_reduced = None
+        return st["top"].to_ge_polyhedron(c.state_case["active"], True)
+
+    def ensures(self, c, st, res):
+        from .c15 import SolveBuiltinH
+        rs = c.repo.load("puan.logic.plog").pr
+        last = getattr(rs.TheoryPy, "last_reduced", None)
+        out = [("reduced.extension-asked", last is not None and last[2] == c.state_case["active"])]
+        if last is None:
+            return out
+        theory, ans, _ = last
+        idx = SolveBuiltinH._index_of(theory, st)
+        out.append(("reduced.statements-identify-the-nodes", idx is not None))
+        if idx is None:
+            return out
+        node_of = {i: n for n, i in idx.items()}
+        nr, nc = ans.a.nrows, ans.a.ncols
+        shape_ok = tuple(res.shape) == (nr, nc + 1)
+        out.append(("reduced.transport.shape", shape_ok))
+        if not shape_ok:
+            return out
+        m = True
+        for i in range(nr):
+            m = band(m, res[i][0] == ans.b[i])
+            for j in range(nc):
+                m = band(m, res[i][j + 1] == ans.a.val[i * nc + j])
+        out.append(("reduced.transport.matrix", m))
+        cols = list(res.variables)
+        ok = len(cols) == nc + 1 and cols[0].id == 0 and [str(v.id) for v in cols[1:]] == [node_of[v.id] for v in ans.variables]
+        out.append(("reduced.transport.column-ids", ok))
+        if ok:
+            bd = True
+            for v in cols[1:]:
+                o = st["objs"][v.id]
+                bd = band(bd, v.bounds.lower == o.bounds.lower, v.bounds.upper == o.bounds.upper)
+            out.append(("reduced.transport.column-bounds", bd))
+        return out
+
+    def concretise(self, case, k, model, c, st):
+        g = lambda v: _mv(model, v.t)
+        return {"shape": case["shape"], "signs": case["signs"], "active": case["active"], "lo": {l: g(v) for l, v in st["lo"].items()},
+                "hi": {l: g(v) for l, v in st["hi"].items()}, "values": {n: g(v) for n, v in st["vals"].items()}}
+
+    def replay(self, w):
+        return reduced_transport_violations(*_native(w), w["active"])
+
+
+def _native(w):
+    import puan
+    import puan.logic.plog as pg
+    tree = SHAPES[w["shape"]]
+    objs = {}
+
+    def mk(name):
+        if name in objs:
+            return objs[name]
+        if name not in tree:
+            objs[name] = puan.variable(name, (w["lo"][name], w["hi"][name]))
+        else:
+            objs[name] = pg.AtLeast(w["values"][name], [mk(k) for k in tree[name]], variable=name, sign=w["signs"][name])
+        return objs[name]
+    return mk("T"), objs
+
+
+def reduced_transport_violations(top, objs, active):
+    """natively: the polyhedron of to_ge_polyhedron(active, reduced=True) against what the compiled extension answers when
+    asked directly with the same theory (also used by the stand-in rt.logic:c01_reduced_transport)"""
+    import numpy as np
+    violated, detail = [], {"model": top.to_text(), "active": active}
+    if top.errors() != []:
+        return {"violated": [], "detail": {"note": "witness is not a validated model"}}
+    theory, id_map = top._to_pyrs_theory()
+    ans = theory.to_ge_polyhedron(active, True)
+    by_index = {i: v for (i, v) in id_map.values()}
+    want_b = [int(x) for x in ans.b.val] if hasattr(ans.b, "val") else [int(x) for x in ans.b]
+    nr, nc = ans.a.nrows, ans.a.ncols
+    want_a = [[int(x) for x in ans.a.val[i * nc:(i + 1) * nc]] for i in range(nr)]
+    want_ids = [by_index[v.id].id for v in ans.variables]
+    got = top.to_ge_polyhedron(active, True)
+    G = np.asarray(got)
+    if tuple(G.shape) != (nr, nc + 1):
+        violated.append("reduced.transport.shape"); detail["shape"] = [list(G.shape), [nr, nc + 1]]
+        return {"violated": violated, "detail": detail}
+    if [int(x) for x in G[:, 0]] != want_b or [[int(x) for x in r] for r in G[:, 1:].tolist()] != want_a:
+        violated.append("reduced.transport.matrix"); detail["got"] = G.tolist(); detail["extension"] = [want_b, want_a]
+    cols = list(got.variables)
+    if cols[0].id != 0 or [v.id for v in cols[1:]] != want_ids:
+        violated.append("reduced.transport.column-ids"); detail["columns"] = [[str(v.id) for v in cols], [str(i) for i in want_ids]]
+    elif any(tuple(v.bounds.as_tuple()) != tuple(by_index[a.id].bounds.as_tuple()) for v, a in zip(cols[1:], ans.variables)):
+        violated.append("reduced.transport.column-bounds")
+    return {"violated": violated, "detail": detail}
+
+
+HARNESSES = [GlueH(), GlueReducedH()]
